@@ -187,7 +187,7 @@ def explorer_cases(rnd, n_chains, n_multi, id0):
 
 # ---------------------------------------------------------------------------------------------- replay + validation
 def record(run, prefix, universe, cases, multi, shards, keysets=None):
-    inp = {"universe": universe, "keys": KEYS, "keysets": keysets or KEYSETS, "cases": cases, "multi": multi, "anyDraws": 8, "chunk": 100}
+    inp = {"universe": universe, "keys": KEYS, "keysets": keysets or KEYSETS, "cases": cases, "multi": multi, "anyDraws": 8, "chunk": 50}
     ipath = os.path.join(run.work, prefix + "-cases.json")
     json.dump(inp, open(ipath, "w"))
     out = json.loads(run.drv("requirements-replay", ["-in", ipath, "-out", os.path.join(run.work, "traces"),
